@@ -29,7 +29,6 @@ Qed.
 Lemma fields_toks s : fields s = toks_acc is_sp [] s.
 Proof. unfold fields. now rewrite fields_toks_gen. Qed.
 
-Definition ctrl_byte (c : ascii) : bool := is_ws c && negb (is_sp c).
 Lemma ws_sp_agree c : ctrl_byte c = false -> is_ws c = is_sp c.
 Proof.
   revert c. assert (H : forall c, implb (negb (ctrl_byte c)) (Bool.eqb (is_ws c) (is_sp c)) = true) by bytes_check.
@@ -395,4 +394,107 @@ Proof.
   pose proof (decode_seq_mono f (decode_fuel s) O s H2) as M1.
   pose proof (decode_seq_mono (decode_fuel s) f O s ltac:(rewrite E; discriminate)) as M2.
   rewrite Nat.add_comm in M2. rewrite M2 in M1. rewrite <- M1, E. reflexivity.
+Qed.
+
+(* ---- an accepted dependency string reads back token for token as the input ---- *)
+Lemma bare_use_tl t ts : bare_use (t :: ts) = false -> bare_use ts = false.
+Proof. destruct ts as [|u r]; [reflexivity|]. cbn [bare_use]. intros H. now apply orb_false_iff in H as [_ H]. Qed.
+Lemma bare_use_app a : forall b, bare_use (a ++ b) = false -> bare_use b = false.
+Proof. induction a as [|t a IH]; intros b H; [exact H|]. apply IH. eapply bare_use_tl. exact H. Qed.
+
+Lemma is_ws_nul : is_ws (nb 0) = true.
+Proof. reflexivity. Qed.
+Lemma not_ws_bnd r : not_ws (peek r) = false -> bnd r.
+Proof. intros H. right. unfold not_ws in H. now apply negb_false_iff in H. Qed.
+
+(* an atom item never starts with a parenthesis *)
+Lemma decode_atom_head f d s a r : decode_dep f d s = ROk (Some (DAtom a), r) ->
+  is 40 (peek (l_atom a)) = false /\ wtoks s = l_atom a :: wtoks r /\ bnd r.
+Proof.
+  destruct f as [|f]; [discriminate|]. rewrite decode_dep_S. unfold dep_step.
+  destruct (get_token_split s) as [(_ & -> & _)|(tok & rest & Ed & Hne & Hw & Hb & Ht & ->)].
+  { destruct d; discriminate. }
+  pose proof (get_token_tok tok Hne Hw) as Hc.
+  destruct (get_token tok) as [| |r0|r0|ty r0|ty flag r0|s1]; cbn [retarget]; try discriminate; [destruct Hc| | | | |].
+  - destruct (decode_seq f (S d) rest) as [[l r']| | |]; discriminate.
+  - destruct d; discriminate.
+  - destruct (decode_dep f d rest) as [[[[a'|t fl l]|] r']| | |]; try discriminate. destruct (t =? 1); discriminate.
+  - destruct (decode_dep f d rest) as [[[[a'|t fl l]|] r']| | |]; try discriminate. destruct (t =? 1); discriminate.
+  - destruct Hc as (_ & H40 & _).
+    destruct (raw_parse_at (tok ++ rest) true true) as [[p| | |] r'] eqn:E; try discriminate.
+    destruct (not_ws (peek r')) eqn:En; [discriminate|]. intros E2. injection E2 as <- <-.
+    apply raw_parse_ok in E as (Hs & Hpne & Hpw & _). cbn [make_da l_atom].
+    split; [|split; [|now apply not_ws_bnd]].
+    + assert (peek (p_atom p) = peek tok); [|congruence].
+      rewrite <- (peek_app_ne (p_atom p) r') by assumption. rewrite <- Hs. now apply peek_app_ne.
+    + rewrite <- wtoks_drop, Ed, Hs. apply wtoks_token; auto. now apply not_ws_bnd.
+Qed.
+
+Lemma group_tok_234 k f : k = 2 \/ k = 3 \/ k = 4 -> group_tok k f = group_tok k [].
+Proof. intros H. destruct H as [H|[H|H]]; subst k; reflexivity. Qed.
+
+Lemma decode_faithful f :
+  (forall d s x r, bare_use (wtoks s) = false -> decode_dep f d s = ROk (x, r) ->
+     match x with
+     | Some dd => wtoks s = dep_toks dd ++ wtoks r /\ bnd r
+     | None => match d with
+               | O => wtoks s = [] /\ r = []
+               | S _ => wtoks s = bs ")" :: wtoks r /\ bnd r
+               end
+     end) /\
+  (forall d s l r, bare_use (wtoks s) = false -> decode_seq f d s = ROk (l, r) ->
+     match d with
+     | O => wtoks s = flat_map dep_toks l /\ r = []
+     | S _ => wtoks s = flat_map dep_toks l ++ bs ")" :: wtoks r /\ bnd r
+     end).
+Proof.
+  induction f as [|f [IHd IHs]]; [split; intros; discriminate|]. split.
+  - intros d s x r Hbu. rewrite decode_dep_S. unfold dep_step.
+    destruct (get_token_split s) as [(_ & -> & Hw0)|(tok & rest & Ed & Hne & Hw & Hb & Ht & ->)].
+    { destruct d; [|discriminate]. intros E. injection E as <- <-. now split. }
+    pose proof (get_token_tok tok Hne Hw) as Hc. rewrite Ht in Hbu. pose proof (bare_use_tl _ _ Hbu) as Hbr.
+    destruct (get_token tok) as [| |r0|r0|ty r0|ty flag r0|s1] eqn:Etok; cbn [retarget]; try discriminate; [destruct Hc| | | | |].
+    + (* ( *) destruct Hc as [_ ->].
+      destruct (decode_seq f (S d) rest) as [[l r']| | |] eqn:E; try discriminate.
+      intros E2. injection E2 as <- <-. apply (IHs _ _ _ _ Hbr) in E as [E Hb']. split; [|exact Hb'].
+      rewrite Ht, E. cbn [dep_toks group_tok N.eqb Pos.eqb]. cbn [app]. f_equal. rewrite <- !app_assoc. reflexivity.
+    + (* ) *) destruct Hc as [_ ->]. destruct d; [discriminate|]. intros E. injection E as <- <-. now rewrite Ht.
+    + (* || ^^ ?? *) destruct Hc as (_ & Hg & Hk).
+      destruct (decode_dep f d rest) as [[[[a'|t fl l]|] r']| | |] eqn:E; try discriminate.
+      destruct (t =? 1) eqn:Et1; [|discriminate]. apply N.eqb_eq in Et1. subst t.
+      intros E2. injection E2 as <- <-. apply (IHd _ _ _ _ Hbr) in E as [E Hb']. split; [|exact Hb'].
+      rewrite Ht, E. cbn [dep_toks]. rewrite (group_tok_234 ty fl Hk), Hg. cbn [group_tok N.eqb Pos.eqb app].
+      rewrite <- !app_assoc. reflexivity.
+    + (* flag? *) destruct Hc as (_ & Hg & Hk & _).
+      destruct (decode_dep f d rest) as [[[[a'|t fl l]|] r']| | |] eqn:E; try discriminate.
+      * (* directly followed by an atom: excluded by the hypothesis *)
+        exfalso. apply decode_atom_head in E as (H40 & Hwr & _). rewrite Hwr in Hbu. cbn [bare_use] in Hbu.
+        apply orb_false_iff in Hbu as [Hbu _]. unfold is_use_tok in Hbu. rewrite Etok in Hbu. cbn [andb] in Hbu.
+        apply negb_false_iff, beq_true in Hbu. rewrite Hbu in H40. cbn in H40. discriminate.
+      * destruct (t =? 1) eqn:Et1; [|discriminate]. apply N.eqb_eq in Et1. subst t.
+        intros E2. injection E2 as <- <-. apply (IHd _ _ _ _ Hbr) in E as [E Hb']. split; [|exact Hb'].
+        rewrite Ht, E. cbn [dep_toks]. rewrite Hg. cbn [group_tok N.eqb Pos.eqb app].
+        rewrite <- !app_assoc. reflexivity.
+    + (* atom *)
+      destruct (raw_parse_at (tok ++ rest) true true) as [[p| | |] r'] eqn:E; try discriminate.
+      destruct (not_ws (peek r')) eqn:En; [discriminate|]. intros E2. injection E2 as <- <-.
+      apply raw_parse_ok in E as (Hs & Hpne & Hpw & _). cbn [dep_toks make_da l_atom app].
+      split; [|now apply not_ws_bnd]. rewrite <- wtoks_drop, Ed, Hs. apply wtoks_token; auto. now apply not_ws_bnd.
+  - intros d s l r Hbu. rewrite decode_seq_S. unfold seq_step.
+    destruct (decode_dep f d s) as [[[x|] r1]| | |] eqn:E; try discriminate.
+    + apply (IHd _ _ _ _ Hbu) in E as [E Hb1]. rewrite E in Hbu. pose proof (bare_use_app _ _ Hbu) as Hbr.
+      destruct (decode_seq f d r1) as [[l' r']| | |] eqn:E2; try discriminate.
+      intros E3. injection E3 as <- <-. apply (IHs _ _ _ _ Hbr) in E2. cbn [flat_map].
+      destruct d; destruct E2 as [E2 H2]; (split; [|exact H2]); rewrite E, E2; rewrite <- ?app_assoc; reflexivity.
+    + intros E3. injection E3 as <- <-. apply (IHd _ _ _ _ Hbu) in E. destruct d; exact E.
+Qed.
+
+(* the theorem on whole inputs, in the terms of the property: tokens are separated by white
+   space (ptokens); inputs of the two known-deviation classes are excepted *)
+Theorem decode_no_misparse s l : existsb ctrl_byte s = false -> bare_use (ptokens s) = false ->
+  decode s = ROk l -> ptokens s = flat_map dep_toks l.
+Proof.
+  intros Hc Hb. rewrite (ptokens_wtoks s Hc) in *. unfold decode.
+  destruct (decode_seq (decode_fuel s) 0 s) as [[l' r]| | |] eqn:E; try discriminate.
+  intros E2. injection E2 as <-. apply (proj2 (decode_faithful _) _ _ _ _ Hb) in E as [E _]. exact E.
 Qed.
